@@ -22,9 +22,9 @@ ASSUMPTIONS = [
     "flattened() of a bundle-free document is documented to return the document itself and is not treated as a derivation",
 ]
 OPS = ["copy", "add_record", "ctor", "update", "add_bundle", "unified", "flattened", "json", "xml"]
-MUTS = ["add_attr", "add_record", "ns_fresh", "ns_clash", "set_default", "add_bundle", "add_bundle_member"]
+MUTS = ["add_attr", "add_value", "add_record", "ns_fresh", "ns_clash", "set_default", "add_bundle", "add_bundle_member"]
 REQUIRED_CLASSES = {"all": ["cell:%s:%s:%s" % (o, m, s) for o in OPS for m in MUTS for s in ("result", "source")
-                            if not (o == "copy" and m != "add_attr")]}
+                            if not (o == "copy" and m not in ("add_attr", "add_value"))]}
 
 SEED_DOCS = [
     {"profile": "json", "ops": [
@@ -122,16 +122,35 @@ def derive(d, op, sel, ctx):
     raise ValueError(op)
 
 
+def _add_value(r, sel):
+    formal = set(r.FORMAL_ATTRIBUTES)
+    names = sorted({a for a, _ in r.attributes if a not in formal}, key=str)
+    if not names:
+        return False
+    r.add_attributes([(names[sel % len(names)], "another-value-%d" % sel)])
+    return True
+
+
 def mutate(x, mut, sel):
     """apply the mutation to a document or record; returns False when not applicable"""
     from prov.model import ProvRecord, ProvException
     from prov.identifier import Namespace, QualifiedName
     NEW = Namespace("mutns", "http://mutation/")
     if isinstance(x, ProvRecord):
+        if mut == "add_value":
+            return _add_value(x, sel)
         if mut != "add_attr":
             return False
         x.add_attributes([(NEW["added"], "added-%d" % sel)])
         return True
+    if mut == "add_value":
+        # a further value under an attribute name the record already carries (shared value sets would show here)
+        recs = [r for c in [x] + list(x.bundles) for r in c.get_records()]
+        recs = recs[sel % len(recs):] + recs[:sel % len(recs)] if recs else []
+        for r in recs:
+            if _add_value(r, sel):
+                return True
+        return False
     if mut == "add_attr":
         recs = [r for c in [x] + list(x.bundles) for r in c.get_records()]
         if not recs:
